@@ -275,7 +275,8 @@ Definition ex_tcase : tcase :=
      [mkTGen TBounding true []; mkTGen TNearby true [[[0%Z]; [1%Z]]]; mkTGen TSurplus true [];
       mkTGen TBoundary true [[[0%Z]]]];
      [mkTGen TBounding true []; mkTGen TNearby true [[[1%Z]; [0%Z]]]; mkTGen TSurplus false [];
-      mkTGen TBoundary true [[[1%Z]]]]].
+      mkTGen TBoundary true [[[1%Z]]]]]
+    [[]; [[[1%Z]]]; []; []].
 
 Example run_cells_partition_nonvacuous :
   check_tcase_run ex_tcase = true
@@ -283,8 +284,22 @@ Example run_cells_partition_nonvacuous :
      check_tcase_run (mkTCase (tc_o ex_tcase) 1%Z
                         (map (map (fun g => match tg_kind g with
                                             | TNearby => mkTGen TNearby true []
-                                            | _ => g end)) (tc_gens ex_tcase))) = false.
+                                            | _ => g end)) (tc_gens ex_tcase)) (tc_vetos ex_tcase)) = false
+  /\ (* a cell-veto event that hits a unit in a nearby cell (treated twice) is rejected *)
+     check_tcase_run (mkTCase (tc_o ex_tcase) 1%Z (tc_gens ex_tcase) [[]; []; [[[1%Z]]]; []]) = false.
 Proof. vm_compute. auto. Qed.
+
+(** the targets of every committed cell-veto event of an accepted run are among the model's cell-veto targets of the
+    replayed state (occupants of a cell reached from a walker item), hence -- by [run_cells_partition] -- not among the
+    targets of the nearby and surplus taggers *)
+Theorem run_veto_targets_far :
+  forall c : tcase, check_tcase_run c = true ->
+  exists states,
+    run_case (tc_o c) = Some states
+    /\ Forall2 (fun sc vs => forall tg u, In tg vs -> In u tg ->
+                              In u (cell_veto_targets list_Z_eqb (case_cs c) (fst sc))) states (tc_vetos c).
+Proof. exact OccupancyRunProofs.run_veto_targets_far. Qed.
+Print Assumptions run_veto_targets_far.
 
 Example torus_cs_ok_nonvacuous : cellsys_ok (torus_cs [6%Z; 6%Z; 6%Z] 2) /\ cellsys_ok (torus_cs [3%Z; 5%Z; 7%Z] 1).
 Proof. split; apply torus_cs_ok; repeat constructor; discriminate. Qed.
